@@ -549,7 +549,13 @@ VAL_PIECES = ['', ' ', '  ', '\t', '+', '-', '.', '0', '00', '1', '12', '123', '
               '%', '&', '!', '#', '$', '%&', 'x', ',', '_', 'inf', 'nan', '\n', '\r']
 
 
-def text_stream(ctx, tier, alpha, pieces, maxlen, nrand):
+BIG_EXP = re.compile(r'[eEdD][+-]?[0-9_]{4,}')
+
+
+def text_stream(ctx, name, alpha, pieces, maxlen, nrand):
+    """every text of length <= maxlen over alpha, then seeded concatenations of
+    pieces.  Texts with an exponent of four or more digits are left out: the
+    model computes 10^|exponent| in Z (Python answers inf / 0.0 at once)."""
     seen = set()
     out = []
     for n in range(0, maxlen + 1):
@@ -558,16 +564,17 @@ def text_stream(ctx, tier, alpha, pieces, maxlen, nrand):
             if s not in seen:
                 seen.add(s)
                 out.append(s)
+    rng = frng(ctx, name)
     for _ in range(nrand):
-        s = ''.join(ctx.rng.choice(pieces) for _ in range(ctx.rng.randint(1, 6)))
-        if s not in seen:
+        s = ''.join(rng.choice(pieces) for _ in range(rng.randint(1, 6)))
+        if s not in seen and not BIG_EXP.search(s):
             seen.add(s)
             out.append(s)
     return out
 
 
 def run_val_texts(ctx, tier, exe):
-    texts = text_stream(ctx, tier, VAL_ALPHA, VAL_PIECES, 3, 4000 if tier == 'quick' else 60000)
+    texts = text_stream(ctx, 'val-texts', VAL_ALPHA, VAL_PIECES, 3, 4000 if tier == 'quick' else 60000)
     ctx.rule.append(f'V: VAL on every text of length <= 3 over {len(VAL_ALPHA)} characters plus seeded '
                     f'concatenations of 1..6 of {len(VAL_PIECES)} literal pieces ({len(texts)} distinct texts); '
                     f'model Literal.val_text vs real _exec_sdbl, including which host SyntaxError escapes')
@@ -585,7 +592,7 @@ READ_PIECES = ['', ' ', '\t', '+', '-', '.', '0', '1', '12', '32767', '32768', '
 
 
 def run_read_texts(ctx, tier, exe):
-    texts = text_stream(ctx, tier, READ_ALPHA, READ_PIECES, 3, 3000 if tier == 'quick' else 40000)
+    texts = text_stream(ctx, 'read-texts', READ_ALPHA, READ_PIECES, 3, 3000 if tier == 'quick' else 40000)
     cases = [[ty, s] for s in texts for ty in (1, 2, 3, 4)]
     ctx.rule.append(f'R: READ and INPUT of one numeric field at the four types on every text of length <= 3 '
                     f'over {len(READ_ALPHA)} characters plus seeded piece concatenations '
